@@ -96,7 +96,7 @@ func runCheck(repo, vdir, prop, tier string, seed int64, writeEvidence bool, qui
 	}
 	scratch := scratchDir()
 	defer os.RemoveAll(scratch)
-	timeout := 10 * time.Second
+	timeout := 20 * time.Second
 	if tier == "thorough" {
 		timeout = 60 * time.Second
 	}
@@ -424,7 +424,7 @@ func cmdLock(args []string) {
 				res := g.verifyFunc(k)
 				all = append(all, res.Obligations...)
 			}
-			dischargeAll(all, scratch, 10*time.Second)
+			dischargeAll(all, scratch, 20*time.Second)
 			for _, o := range all {
 				if o.Vacuity {
 					continue
@@ -433,7 +433,7 @@ func cmdLock(args []string) {
 					order = append(order, o.Name)
 				}
 				// only lock obligations that discharge well under the quick timeout
-				if o.ok() && o.Ms < 5000 {
+				if o.ok() && o.Ms < 6500 {
 					okCount[o.Name]++
 				}
 			}
